@@ -20,6 +20,8 @@ RULE = ("(index) enumeration: for n 1..10 EVERY row k of generate_hilbert_space(
         "(N 2..30, n 2..6, drawn alphabet, float64 targets written with %.18e) loaded with load_data / load_data_DM and compared "
         "with an independent str.split parse; extract_refbasis_samples vs my own row filter for any pattern incl. none/all. "
         "Non-trivial = (index) n >= 3, (positions) a non-palindromic tag, (files) >= 2 distinct bases incl. an all-Z row.")
+RULE_EXT = ('Extended as built: numpy integer / keyword argument forms, returned spaces edited in place three times (no shared cache), default max_size of a 21-qubit model, files rewritten at the same paths, tiny entries, D in {2,4,8,16}.')
+RULE = RULE + " " + RULE_EXT
 ASSUMPTIONS = ["targets compared to within one float32 ulp of the written number (documented single precision)",
                "single-row / single-column files are not generated (np.loadtxt squeezes them; the property speaks of contents)"]
 
